@@ -139,9 +139,13 @@ func (c *MemoryCache[MetadataT]) Get(key CacheKey) (*Entry[MetadataT], error) {
 	entry.meta.LastAccess = time.Now()
 	metrics.Global.Cache.CacheHits.Increment()
 
+	// Hand out a snapshot: the caller reads it without holding the entry's lock,
+	// while UpdateMetadata and later Gets keep writing the stored metadata.
+	metaSnapshot := *entry.meta
+
 	return &Entry[MetadataT]{
 		Data:     &memoryReadSeekCloser{bytes.NewReader(entry.data)},
-		Metadata: entry.meta,
+		Metadata: &metaSnapshot,
 		Stale:    stale,
 	}, nil
 }
